@@ -1,5 +1,6 @@
-"""Regression: every claimed check on the clean tree (must exit 0) and every
-seeded patch against its target property (must exit 1).  Parallel.
+"""Regression: every claimed check on the clean tree (must exit 0), every
+seeded patch against its target property (must exit 1), and every
+behaviour-preserving patch seeded/benign_* against all checks (must exit 0).
   tools/regress.py [--all-props]   (with --all-props every seed runs all checks)
 """
 import json, os, subprocess, sys
@@ -27,7 +28,10 @@ def main():
         clean[p] = r.returncode
     print('clean tree:', ' '.join('%s=%d' % kv for kv in sorted(clean.items())))
     seeds = sorted(d for d in os.listdir(os.path.join(HERE, 'seeded'))
-                   if os.path.exists(os.path.join(HERE, 'seeded', d, 'patch.diff')))
+                   if os.path.exists(os.path.join(HERE, 'seeded', d, 'patch.diff'))
+                   and not d.startswith('benign_'))
+    benign = sorted(d for d in os.listdir(os.path.join(HERE, 'seeded'))
+                    if d.startswith('benign_'))
 
     def job(d):
         tgt = TARGET.get(d[:14]) or d[:3]
@@ -56,7 +60,19 @@ def main():
             missed.append(d)
         print('%-60s %-7s caught=%s err=%s' % (d, status, caught, errs))
     print('missed:', missed)
-    return 1 if any(v != 0 for v in clean.values()) else 0
+    # behaviour-preserving rewrites: every claimed check must stay silent
+    noisy = []
+
+    def bjob(d):
+        return d, mutest.run(os.path.join(HERE, 'seeded', d, 'patch.diff'), claimed,
+                             verbose=False)
+    with ThreadPoolExecutor(4) as ex:
+        for d, res in ex.map(bjob, benign):
+            loud = [p for p, (rc, _) in res.items() if rc != 0]
+            print('%-60s %s' % (d, 'SILENT' if not loud else 'FALSE ALARM in %s' % loud))
+            if loud:
+                noisy.append(d)
+    return 1 if any(v != 0 for v in clean.values()) or noisy else 0
 
 
 if __name__ == '__main__':
